@@ -132,7 +132,7 @@ def corpus_part(n_examples, shard):
 
     @st.composite
     def item(draw):
-        kind = draw(st.sampled_from(("ctor-valid", "ctor-valid", "ctor-mutant", "ctor-long", "cli-long", "ctor-text", "ctor-cross", "rh", "rh-bad", "rh-near", "rh-float-syntax", "text",
+        kind = draw(st.sampled_from(("ctor-valid", "ctor-valid", "ctor-mutant", "ctor-long", "cli-long", "cli-new-unicode", "ctor-text", "ctor-cross", "rh", "rh-bad", "rh-near", "rh-float-syntax", "text",
                                      "interactive", "cli-vector", "cli-vector", "cli-interactive")))
         ver = draw(gen.version_key())
         if kind == "ctor-valid":
@@ -145,6 +145,16 @@ def corpus_part(n_examples, shard):
             v = "".join(c if c in ASCII_PRINTABLE else "?" for c in draw(gen.lengthened(ver)))
             flags = draw(st.sampled_from(([], ["-j"], ["-a"], ["-n"])))
             return kind, ["cli", ["-" + ver] + flags + ["--vector=" + v], None]
+        if kind == "cli-new-unicode":
+            # rejected command-line vectors that carry a character of a recent Unicode version: whatever quotes, escapes, classifies or
+            # case-maps the input with the interpreter's own tables prints something else on older interpreters
+            v = draw(st.one_of(gen.valid(ver), gen.mutated(ver, max_edits=1).map(lambda t: t[0]), gen.valid(draw(gen.version_key()))))
+            v = "".join(c if c in ASCII_PRINTABLE else "?" for c in v)
+            c = draw(st.sampled_from(NEW_UNICODE))
+            i = draw(st.integers(0, len(v)))
+            v = draw(st.sampled_from((v[:i] + c + v[i:], v + c, c + v, v + "/" + c, v.replace("/", "//", 1) + c, v + " " + c, "see " + c + " " + v)))
+            flags = draw(st.sampled_from(([], ["-j"], ["-a", "-n"])))
+            return kind, ["cli", draw(st.sampled_from((["-" + ver], [], ["-3"]))) + flags + ["--vector=" + v], None]
         if kind == "ctor-text":
             return kind, ["ctor", ver, draw(st.text(alphabet=st.characters(blacklist_categories=("Cs",)), max_size=30))]
         if kind == "ctor-cross":
@@ -294,6 +304,6 @@ def run(tier, t0):
                          ["reference interpreter: /venv/bin/python (3.12), tied to the specification by C01-C17",
                           "hash() values and the key order of unsorted dicts are not observables; text-extraction results compared sorted",
                           "interpreters found: %s" % ", ".join(found)],
-                         required=["kind:" + k for k in ("ctor-valid", "ctor-mutant", "ctor-long", "cli-long", "ctor-text", "ctor-cross", "rh", "rh-bad", "rh-near", "rh-float-syntax", "text", "interactive", "interactive-bytes", "cli-vector", "cli-interactive", "interactive-nonascii")]
+                         required=["kind:" + k for k in ("ctor-valid", "ctor-mutant", "ctor-long", "cli-long", "cli-new-unicode", "ctor-text", "ctor-cross", "rh", "rh-bad", "rh-near", "rh-float-syntax", "text", "interactive", "interactive-bytes", "cli-vector", "cli-interactive", "interactive-nonascii")]
                          + ["python:" + f for f in found],
                          extra={"interpreters": found + ["venv-3.12 (reference)"], "corpus_items": len(items)})
